@@ -63,6 +63,11 @@ type Op struct {
 	Src    int      `json:"src,omitempty"`
 	Line   string   `json:"line,omitempty"`
 	Dir    []DirEnt `json:"dir,omitempty"`
+	// burst (C06, driven by harness/c06/slow.go; World.Run does not know it):
+	// a line of Fill bytes 'a' (when Fill > 0) and then Lines are sent back to
+	// back, without waiting for the programs in between
+	Lines []string `json:"lines,omitempty"`
+	Fill  int      `json:"fill,omitempty"`
 	// observed
 	Err string `json:"err,omitempty"` // load: "" | error text
 }
